@@ -50,6 +50,8 @@ type lossyChain struct {
 	// callGate, when set, holds the answer of the next pending-state call back until it is closed
 	callGate chan struct{}
 	mu       sync.Mutex
+	// noPendingState: see PendingCallContract
+	noPendingState bool
 	// loseAnswer: the next submitted transaction reaches the node, its acknowledgement does not reach the pool
 	loseAnswer bool
 }
@@ -95,7 +97,21 @@ func (b *lossyChain) SendTransaction(ctx context.Context, tx *types.Transaction)
 }
 
 func (b *lossyChain) PendingCallContract(ctx context.Context, call ethereum.CallMsg) ([]byte, error) {
-	out, err := b.SimulatedBackend.PendingCallContract(ctx, call)
+	var out []byte
+	var err error
+	if b.noPendingState {
+		// a node that answers "pending" calls from its latest block (nodes that do not mine, hosted providers)
+		out, err = b.SimulatedBackend.CallContract(ctx, call, nil)
+	} else {
+		out, err = b.SimulatedBackend.PendingCallContract(ctx, call)
+	}
+	return out, err
+}
+
+// CallContract: when armed, the answer to the next call against the mined state is held back (a balance query reads
+// the pending state first and the mined state second: what it brings back is then old in both).
+func (b *lossyChain) CallContract(ctx context.Context, call ethereum.CallMsg, blockNumber *big.Int) ([]byte, error) {
+	out, err := b.SimulatedBackend.CallContract(ctx, call, blockNumber)
 	if g := b.gate("call"); g != nil {
 		select {
 		case <-g:
@@ -181,6 +197,10 @@ func runC07Contract(s *kernel.Sim) {
 	}
 	backend := &lossyChain{SimulatedBackend: backends.NewSimulatedBackend(alloc, 8000000), drop: make(chan struct{})}
 	pendingDeposit := map[int]*big.Int{1: new(big.Int), 2: new(big.Int)} // submitted, not mined yet
+	if s.Choose("nopending", 4) == 0 {
+		backend.noPendingState = true
+		s.Fault("node_without_a_pending_state")
+	}
 	defer backend.Close()
 	dropAt := -1
 	if s.Choose("sublost", 3) == 0 {
@@ -237,6 +257,11 @@ func runC07Contract(s *kernel.Sim) {
 	cp, err := payment.ContractPayment(inner, addr, backend, opAuth)
 	if err != nil {
 		panic(err)
+	}
+	if s.Choose("nosigner", 16) == 0 {
+		// an operator account that cannot sign (key not unlocked): every settlement fails before it is sent
+		opAuth.Signer = nil
+		s.Fault("operator_cannot_sign")
 	}
 	// exactly the wiring of pool.go
 	svc := &payment.PaymentService{
@@ -297,7 +322,15 @@ func runC07Contract(s *kernel.Sim) {
 			panic(err)
 		}
 		ctx, cancel := context.WithTimeout(context.Background(), 30*time.Second)
-		err = svc.Withdraw(ctx, sig, name, nonce)
+		func() {
+			defer func() {
+				if r := recover(); r != nil {
+					err = fmt.Errorf("panic: %v", r)
+					s.Violate("process_crash", "pool_withdraw panics", "#%d withdraw(W%d): %v (the request's goroutine is not recovered by anybody: the pool process dies, after the credit was debited)", i, w, r)
+				}
+			}()
+			err = svc.Withdraw(ctx, sig, name, nonce)
+		}()
 		cancel()
 		s.Event("#%d withdraw(W%d as %s) -> %v", i, w, name[:6], err)
 		if err == nil {
